@@ -182,26 +182,51 @@ def _atomic(ctx) -> None:
 
 
 def _rename(ctx) -> None:
+    """rename_columns on its symx event log (helpers in line): no raise can follow a store to a column name, and before the first
+    such store the pairs are replayed on a scratch list of names (a loop over the old names that raises for a missing one and
+    records each rename in the scratch list, so that chains a->b, b->c are judged like the real renames)."""
+    from ..sites2 import interp_of
+    from ..symx import deep_subterms, show, subterms
     prog = ctx.prog
     f = prog.func("table.Table.rename_columns")
-    cfg = cfg_of(f)
-    stores = [n for n in cfg.stmt_nodes() if isinstance(n.ast, ast.Assign) and isinstance(n.ast.targets[0], ast.Attribute)
-              and n.ast.targets[0].attr == "_name"]
+    it = interp_of(prog, f)
+    OLD = ("param", f.params[1])
+    stores = [e for e in it.events if e.kind == "store" and e.term[0] == "attr" and e.term[2] == "_name"]
     if not stores:
         raise AnalysisError("rename_columns: no store to a column name found")
     problems = []
     for m in stores:
-        for n in cfg.stmt_nodes():
-            if n is m or not cfg.can_reach(m, n):
+        for e in it.events:
+            if e.kind == "raise" and _can_follow(m, e):
+                problems.append(f"`raise {show(e.term, it)[:50]}` (line {getattr(e.node, 'lineno', '?')}) is reachable after the first rename "
+                                f"has been applied (line {getattr(m.node, 'lineno', '?')}): a failed rename_columns leaves the table "
+                                f"half-renamed")
+                break
+        if problems:
+            break
+    first = min(s_.seq for s_ in stores)
+
+    def over_old(L) -> bool:
+        lp = it.loops[L]
+        dom = lp.domain if lp.domain is not None else lp.iter
+        return dom is not None and (dom == OLD or (dom[0] == "tuple" and OLD in dom[1]) or any(x == OLD for x in subterms(dom)))
+    sim = False
+    for r in it.events:
+        if r.kind != "raise" or r.seq > first:
+            continue
+        for L in r.loops:
+            if not over_old(L):
                 continue
-            if isinstance(n.ast, ast.Raise):
-                problems.append(f"`{short(n.ast, 50)}` (line {n.lineno}) is reachable after the first rename has been applied "
-                                f"(line {m.lineno}): a failed rename_columns leaves the table half-renamed")
-    # the simulation: every old name is located in a scratch list, with raise on failure, before the apply loop
-    sim = [s for s in walk_stmts(f.body) if isinstance(s, ast.Try)]
+            # the scratch list is updated in the same loop
+            if any(e.kind in ("store", "call") and L in e.loops and e.seq < first
+                   and ((e.kind == "store" and e.term[0] == "sub" and e.term[1][0] == "obj")
+                        or (e.kind == "call" and e.term[1][0] == "attr" and e.term[1][1][0] == "obj"
+                            and e.term[1][2] in ("remove", "append", "insert", "pop", "__setitem__")))
+                   for e in it.events):
+                sim = True
     if not sim:
         problems.append("the failing lookup of an old name is not simulated on a scratch list before the renames are applied")
-    ctx.ob("b.rename-atomic", f, "atomic", not problems, "all raises precede the first store to a column name", stores[0].ast,
+    ctx.ob("b.rename-atomic", f, "atomic", not problems, "all raises precede the first store to a column name", stores[0].node,
            message="; ".join(problems[:2]))
 
 
